@@ -174,6 +174,7 @@ type FnCtx struct {
 	atPrev      map[string]string
 	inl         *inlFrame // non-nil while a function literal is executed in place
 	atAny       []*ssa.BasicBlock
+	backFrom    *ssa.BasicBlock            // source block of the back edge whose `loop L body` clauses are being checked
 	bindIter    *loopInfo                  // loop whose body clause is being bound
 	exitSt      map[*loopInfo]*State       // state in which a loop was last left (for atexit/passed)
 	iterEntFlag map[*loopInfo]map[int]Term // value of iteration-local flags on entry to an inner loop
@@ -1624,7 +1625,71 @@ func (c *FnCtx) nilCheck(st *State, ins ssa.Instruction, p *Val) {
 	if p.S == "" {
 		return
 	}
+	if c.spec != nil && len(c.spec.nilsafe) > 0 && !c.spec.safety && !c.dry {
+		c.nilsafeCheck(st, ins, derefOperand(ins), p)
+		return
+	}
 	c.safety(st, ins, "nil-deref", not(eq(p.S, "0")))
+}
+
+// derefOperand is the pointer an instruction dereferences.
+func derefOperand(ins ssa.Instruction) ssa.Value {
+	switch x := ins.(type) {
+	case *ssa.FieldAddr:
+		return x.X
+	case *ssa.UnOp:
+		return x.X
+	case *ssa.Store:
+		return x.Addr
+	case *ssa.IndexAddr:
+		return x.X
+	case *ssa.Field:
+		return x.X
+	}
+	return nil
+}
+
+// nilsafeOrigin: v was read from a field listed in the contract's `nilsafe` clause
+// (directly: v = *(&x.F)); returns the designator.
+func (c *FnCtx) nilsafeOrigin(v ssa.Value) string {
+	ld, ok := v.(*ssa.UnOp)
+	if !ok || ld.Op != token.MUL {
+		return ""
+	}
+	fa, ok := ld.X.(*ssa.FieldAddr)
+	if !ok {
+		return ""
+	}
+	s, T, _ := isStructPtr(fa.X.Type())
+	nt, isNamed := types.Unalias(T).(*types.Named)
+	if s == nil || !isNamed {
+		return ""
+	}
+	name := nt.Obj().Name() + "." + s.Field(fa.Field).Name()
+	if nt.Obj().Pkg() != nil {
+		name = nt.Obj().Pkg().Name() + "." + name
+	}
+	for _, d := range c.spec.nilsafe {
+		if d == name {
+			return d
+		}
+	}
+	return ""
+}
+
+// nilsafeCheck: a targeted null-safety obligation -- only for pointers read from a field
+// that is nil by design (e.g. ssa.Function.Pkg of synthetic functions).
+func (c *FnCtx) nilsafeCheck(st *State, ins ssa.Instruction, operand ssa.Value, p *Val) {
+	if operand == nil {
+		return
+	}
+	d := c.nilsafeOrigin(operand)
+	if d == "" {
+		return
+	}
+	cond := not(eq(p.S, "0"))
+	c.emit(&Obligation{Name: fmt.Sprintf("%s.nilsafe.%s", c.spec.oname(), d), Kind: "safety", Clause: "a pointer read from " + d + " (nil by design) is dereferenced only after a nil check", Where: c.where(ins), Hyp: st.pc, Goal: cond})
+	st.pc = c.define("pc.safe", "Bool", and(st.pc, cond))
 }
 
 func (c *FnCtx) allocRef(st *State, name string) Term {
